@@ -66,6 +66,11 @@ fn scen(_spec: RunSpec) -> ScenFut {
             c.adv_pct = 3;
             c.ticks_ms = vec![50, 500, 5_000];
         });
+        // a fifth of the runs starve one node's requests (adversarial schedule: conflict-retry exhaustion)
+        if sim::w(5) == 4 {
+            sim::set_cfg(|c| c.starve_node = Some(0));
+            sim::probe("starved-node-schedule");
+        }
         sim::log(format!("CONFIG nodes={nodes} shards={nshards} profile={profile} post_gates={post}"));
         let recs: Arc<Mutex<Vec<Rec>>> = Arc::new(Mutex::new(Vec::new()));
         let mut plans = Vec::new();
